@@ -17,10 +17,13 @@
    invariant CE; each proviso is needed: three `_refuted` examples).  Clause 408 (while the recovery goes on without a store
    reset, every kept message above the expected number stays kept) never fails on ANY model trace (KeptStayProofs.v); with
    `<=` in place of `<` (the key equal to the new expected number demanded too) the clause is refuted: a kept gap fill that
-   fills nothing is taken out and processed when it is next, and leaves the expected number where it is. *)
+   fills nothing is taken out and processed when it is next, and leaves the expected number where it is.
+   Clause 409 ("including gaps detected on the Logon itself", a predicate of its own: Session/SpecLogonGap.v) never fails on
+   ANY model trace (LogonGapProofs.v). *)
 From Coq Require Import ZArith List Bool.
 From QF Require Import Base.Bytes Session.Types Session.Model Session.Spec Session.LocalProofs Session.C01Proofs Session.FrameProofs Session.TraceProofs Session.RecoveryProofs Session.ReactionProofs Session.TgProofs Session.ResendInvProofs
-  Session.NoReqProofs Session.ChunkProofs Session.TjProofs Session.KeptProofs Session.StashTypeProofs Session.KeptStayProofs.
+  Session.NoReqProofs Session.ChunkProofs Session.TjProofs Session.KeptProofs Session.StashTypeProofs Session.KeptStayProofs
+  Session.SpecLogonGap Session.LogonGapProofs.
 Import ListNotations.
 Open Scope Z_scope.
 
@@ -276,3 +279,56 @@ Example c04_kept_messages_stay_kept_with_le_refuted :
   exists c es, c04_408_le_check c (combine es (map obs_of (run_trace es (init_sess c)))) = [(4%nat, 408)]
                /\ c04_check c (combine es (map obs_of (run_trace es (init_sess c)))) = [].
 Proof. exact KeptStayProofs.c04_kept_messages_stay_kept_with_le_refuted. Qed.
+
+(* ---- clause 409: "including gaps detected on the Logon itself" ---- *)
+(* STEP LEVEL.  From every state whose State is the logon state with nothing buffered, a directly processed message numbered n:
+   if OnLogon was called in the step (the message is a Logon and handleLogon accepted it) and the expected number after the
+   step — which already reflects any reset the Logon caused — is still <= n (the Logon was numbered too high), then exactly
+   one ToAdmin callback for a ResendRequest was logged in the step, the step wrote no ResendRequest (at most the Logon reply:
+   the session is not yet logged on when doTargetTooHigh -> sendResendRequest -> send runs, so the request is numbered,
+   persisted and queued behind the reply), the outbound queue is not empty, and the session is recovering with range end n - 1. *)
+Theorem c04_gap_on_the_logon_step : forall s m n,
+  s_st s = SLogon -> s_in_buf s = [] -> mi_seq m = FVal n ->
+  let s' := step s (EIncoming m) in
+  In CbOnLogon (s_cbs s') -> s_tgt s' <= n ->
+  rrf (s_cbs s') = [CbToAdmin T_RESENDREQ] /\ resend_requests (s_wire s') = [] /\ s_to_send s' <> []
+  /\ exists st cur, s_st s' = SResend st cur (n - 1).
+Proof. exact logon_gap_step. Qed.
+
+(* TRACE LEVEL.  For every configuration and every event list, c04_logon_gap_check (code 409) reports nothing on the model's
+   trace: whenever a Logon processed directly in the logon state (nothing buffered) is accepted (OnLogon among the step's
+   callbacks) and its own MsgSeqNum n is >= the expected number after the step, exactly one ResendRequest was created in
+   that step (one ToAdmin for MsgType 2), it is either on the wire with BeginSeqNo = the expected number and EndSeqNo = the
+   chunk end or the "infinity" marker of the FIX version, or still in the outbound queue, and the session is recovering with
+   range end n - 1.  The check evaluates the same predicate, c04_logon_gap_check, on the implementation's observations. *)
+Theorem c04_gap_on_the_logon_on_any_trace : forall c es,
+  c04_logon_gap_check c (combine es (map obs_of (run_trace es (init_sess c)))) = [].
+Proof. exact c04_logon_gap_never_fails. Qed.
+
+(* non-vacuity: an acceptor (chunk size 2) expecting 1 receives Logon 5: the premise of the clause holds at event 1 (state
+   before: logon; OnLogon called; expected number still 1 <= 5), one ToAdmin for a ResendRequest, the step writes the Logon
+   reply only, the request is queued, the session is recovering with range end 4 (first chunk ends at 2) ... *)
+Example c04_gap_on_the_logon_trace_example :
+  map (fun o => (ob_st (snd o), ob_tgt (snd o), has_onlogon (ob_cbs (snd o)), filter is_rr_cb (ob_cbs (snd o)),
+                 wire_types (ob_wire (snd o)), ob_tosend (snd o)))
+      (c04x_run (c04x_cfg 2) c04x_logon_gap_trace)
+  = [(ShLogon, 1, false, [], [], 0);
+     (ShResend true [] 2 4, 1, true, [CbToAdmin T_RESENDREQ], [T_LOGON], 1)]
+  /\ c04_logon_gap_check (c04x_cfg 2) (c04x_run (c04x_cfg 2) c04x_logon_gap_trace) = [].
+Proof. exact c04x_logon_gap_trace_premise_and_reaction. Qed.
+
+(* ... and the predicate does judge that event: with the observed state after the Logon replaced by "in session" (a session
+   that ignored the gap) it reports (1, 409) *)
+Example c04_gap_on_the_logon_check_detects :
+  c04_logon_gap_check (c04x_cfg 2)
+    (map (fun eo => (fst eo, match ob_st (snd eo) with
+                             | ShResend _ _ _ _ =>
+                                 {| ob_cbs := ob_cbs (snd eo); ob_wire := ob_wire (snd eo); ob_closed := ob_closed (snd eo);
+                                    ob_snd := ob_snd (snd eo); ob_tgt := ob_tgt (snd eo); ob_st := ShInSession;
+                                    ob_tosend := ob_tosend (snd eo); ob_stopped := ob_stopped (snd eo); ob_hb := ob_hb (snd eo);
+                                    ob_inbuf := ob_inbuf (snd eo) |}
+                             | _ => snd eo
+                             end))
+         (c04x_run (c04x_cfg 2) c04x_logon_gap_trace))
+  = [(1%nat, 409)].
+Proof. exact c04x_logon_gap_check_detects. Qed.
